@@ -11,7 +11,7 @@ CFG = dict(
     level_note='Trusted: Coq kernel, harness printers. The log is modelled as one list of (data,time,diff) per shard (WAL/buffer/batch split is '
                'C14\'s refinement); consolidate is modelled by per-key sums, independent of the sort order used by the code. The Gallina model is '
                'hand-written; its agreement with the Rust code is checked by correspondence, not proved.',
-    bin='c11', n_quick=300, n_thorough=4000,
+    bin='c11', n_quick=300, n_thorough=1500,
     corr_name='Model/Store.v vs StorageEngine (insert/delete/save/compact/restart)',
     rule='corpus (the once-failing shapes [ins x; ins x; del x], [del x; ins x], in-batch duplicate, with compaction/restart in between, buffer sizes '
          '{1,2,10000}); exhaustive histories over {ins x, ins y, del x, del y, compact, restart} up to length 2 (quick) / 5 (thorough) followed by a '
